@@ -56,6 +56,16 @@ CLAIMED = {
    text="Generated operands of every kind and orientation (rational/float polygons incl. non-convex, curved degree 1..3) in crossing/nested/apart configurations with | & - ^ + * ~ - and nested programs over 3-4 atoms; the result region is compared point-wise with the model on witness points of every face of the arrangement plus uniform, far, near-boundary and sagitta points, both through `p in R` and through the winding numbers of R's boundary curves; any exception or call over 120 s on a judged (transversal, well-conditioned) case is a violation.",
    note="Trusted: vlib/refgeom.py (winding, exact polygon predicates, crossing finder used for conditioning). Two open known findings (operands in contact; xor of crossing float/curved operands) are excluded by input predicates and counted; float/curved crossings below the stated conditioning thresholds are skipped and counted.",
    ref="4/C01"),
+ "C05": dict(
+   technique="property-based testing (Hypothesis): metamorphic measure identities on operator results of generated operand pairs and programs, with the operands' own moments tied to the exact reference integral",
+   text="For generated operand pairs (all kinds, rational/float polygons, curved) and programs, the moments up to order 2 of A|B, A&B, A-B, A^B, ~A computed from separately built fresh operands must satisfy inclusion-exclusion; exact Fraction equality where the reference's exact crossings are representable below the 1e9 cap, 1e-9 otherwise, 1e-5 for float/curved (with node counts that make the quadrature exact).",
+   note="Trusted: the exact line-line solver (to decide the exact regime) and refgeom.curve_moment for the operands. The two operator findings (contact, xor of crossing float/curved operands) are excluded by the same input predicates as in C01.",
+   ref="4/C05"),
+ "C06": dict(
+   technique="property-based testing (Hypothesis): validity predicate over every operator result (winding numbers on witness points of the result's own boundary arrangement), singleton laws on generated shapes, exhaustive kind tables over a fixed zoo",
+   text="Every result of the C01 operand pairs is checked for closed chains, no zero-length pieces, weak simplicity of every boundary, Connected/Disjoint structure and singleton identity for geometrically empty/whole results; the documented laws S|~S, S&~S, S-S, S^S, S^~S are checked for identity with the singletons on generated S of every kind incl. curved; the kind tables of the docs are enumerated exhaustively over an 8x8 zoo x 4 operators and ~.",
+   note="Trusted: refgeom witness points and winding numbers. Contacts at isolated points are allowed (xor of crossing shapes touches itself); crossings/overlaps are what the predicate rejects. Same excluded classes as C01.",
+   ref="4/C06"),
 }
 NOT_YET = "check not built yet in this round (planned, see DESIGN.md section 4); nothing is claimed for it"
 
